@@ -133,11 +133,11 @@ def build_all(spec):
         d = bytes.fromhex(hexd)
         exts += struct.pack(">II", magic, len(d)) + d + b"\x00" * ((8 - len(d) % 8) % 8)
     exts += struct.pack(">II", 0, 0)
-    hlen = 72 if spec["version"] == 2 else 112
+    hlen = 72 if spec["version"] == 2 else (104 if spec.get("hlen104") else 112)
     boff = hlen + len(exts) if bname else 0
     hdr = struct.pack(">IIQIIQIIQQIIQ", 0x514649FB, spec["version"], boff, len(bname), cb, spec["size"], 0, l1_size, l1_off, 0, 0, 0, 0)
     if spec["version"] == 3:
-        hdr += struct.pack(">QQQII", incompat, 0, 0, 4, 112) + struct.pack(">B7x", 0)
+        hdr += struct.pack(">QQQII", incompat, 0, 0, 4, hlen) + (struct.pack(">B7x", 0) if hlen == 112 else b"")
     img.put(0, hdr + exts + bname)
     if spec["version"] == 2 and spec.get("v2_garbage") and False:
         pass
@@ -271,6 +271,13 @@ def gen_specs(rng: random.Random, n, hints=None):
             sp["big_base"] = 5 << 30
         if rng.random() < 0.3:
             sp["ext_hdr"] = [[0xE2792ACA, b"raw".hex()]] + ([[0x6803F857, (b"\x00" * 48).hex()]] if rng.random() < 0.5 else [])
+        # version-3 header of exactly 104 bytes (QEMU < 5.1: no compression_type field; byte 104 is the first byte of the first header
+        # extension).  Decided by a private generator so that the main random stream -- every other generated image -- stays as it was
+        r2 = random.Random(repr((i, sp["size"], sp["cb"], version)))
+        if version == 3 and r2.random() < 0.35:
+            sp["hlen104"] = True
+            if "ext_hdr" not in sp and r2.random() < 0.7:
+                sp["ext_hdr"] = [[0x6803F857, (b"\x00" * 48).hex()]] if r2.random() < 0.5 else [[0xE2792ACA, b"qcow2".hex()]]
         out.append(sp)
     return out
 
